@@ -5,6 +5,13 @@ import (
 	"github.com/valyala/fasthttp"
 )
 
+type requestCookie struct {
+	key    string
+	value  string
+	except bool
+	drop   bool
+}
+
 // New creates a new middleware handler
 func New(config ...Config) fiber.Handler {
 	// Set default config
@@ -17,18 +24,44 @@ func New(config ...Config) fiber.Handler {
 			return c.Next()
 		}
 
-		// Decrypt request cookies
+		// Decrypt request cookies. Only the first cookie of a name counts (as for c.Cookies).
+		var buf [8]requestCookie
+		cookies := buf[:0]
+		repeated := false
 		c.Request().Header.VisitAllCookie(func(key, value []byte) {
-			keyString := string(key)
-			if !isDisabled(keyString, cfg.Except) {
-				decryptedValue, err := cfg.Decryptor(string(value), cfg.Key)
-				if err != nil {
-					c.Request().Header.SetCookieBytesKV(key, nil)
-				} else {
-					c.Request().Header.SetCookie(string(key), decryptedValue)
+			cookie := requestCookie{key: string(key), value: string(value)}
+			cookie.except = isDisabled(cookie.key, cfg.Except)
+			if !cookie.except {
+				for i := range cookies {
+					if cookies[i].key == cookie.key {
+						cookie.drop, repeated = true, true
+						break
+					}
+				}
+				if !cookie.drop {
+					decryptedValue, err := cfg.Decryptor(cookie.value, cfg.Key)
+					if err != nil {
+						decryptedValue = ""
+					}
+					cookie.value = decryptedValue
 				}
 			}
+			cookies = append(cookies, cookie)
 		})
+		if repeated {
+			// SetCookie can only reach the first entry of a name: rebuild the collection in its
+			// original order without the repeated entries, which would stay undecrypted
+			c.Request().Header.DelAllCookies()
+		}
+		for _, cookie := range cookies {
+			switch {
+			case cookie.drop:
+			case !cookie.except:
+				c.Request().Header.SetCookie(cookie.key, cookie.value)
+			case repeated:
+				c.Request().Header.Add(fiber.HeaderCookie, cookie.key+"="+cookie.value)
+			}
+		}
 
 		// Continue stack
 		err := c.Next()
